@@ -27,7 +27,8 @@ EXTENDS Integers, Sequences, FiniteSets, TLC, Json
 CONSTANTS Deviations,      \* subset of AllDevs
           MaxItems,        \* number of top-level items of a generated graph
           MaxCF,           \* how many of them may be If/Loop items
-          Thorough         \* BOOLEAN: full menus and the full configuration product
+          Thorough         \* BOOLEAN: full item menus, any item may start a two-item graph, all colliding name
+                           \* families (see MayAdd, Namings, ConfigOK for what the quick tier leaves out)
 VARIABLES g, stage, cfg, ex, res
 vars == <<g, stage, cfg, ex, res>>
 
@@ -180,7 +181,8 @@ LoopRun(n, env, i, c, st, fuel) ==
 (* generation: g = [items, inits, n, last, prev, tys, outs, attr, cf]                           *)
 (*  n: ids t1..tn allocated; last/prev: the two most recent FLOAT results (operands of the next *)
 (*  item); tys[i]: type of t_i ("f" FLOAT[], "i" INT64[], "b" BOOL[], "v" FLOAT vector)         *)
-Item(nodes, tys, last, prev) == [nodes |-> nodes, tys |-> tys, last |-> last, prev |-> prev, inits |-> <<>>]
+Item(nodes, tys, last, prev) == [nodes |-> nodes, tys |-> tys, last |-> last, prev |-> prev, inits |-> <<>>, out2 |-> ""]
+Item2(nodes, tys, out1, out2) == [nodes |-> nodes, tys |-> tys, last |-> out1, prev |-> out2, inits |-> <<>>, out2 |-> out2]   \* two results
 L == g.last
 P == g.prev
 K == g.n
@@ -193,7 +195,8 @@ ItemBin(op, pat) ==
   IN Item(<<OpN(op, ab, T(K + 1))>>, <<"f">>, T(K + 1), L)
 ConstToks == IF Thorough THEN {"c2", "cm1", "cnan", "cinf", "cninf", "af2", "afinf"} ELSE {"c2", "cm1", "cnan", "cinf", "afinf"}
 ItemConst(tok) == Item(<<ConstN(tok, T(K + 1))>>, <<"f">>, T(K + 1), L)
-ItemPow == Item(<<ConstN("c2", T(K + 1)), OpN("Pow", <<L, T(K + 1)>>, T(K + 2))>>, <<"f", "f">>, T(K + 2), L)
+ItemPow == Item(<<ConstN("c2", T(K + 1)), OpN("Pow", <<L, T(K + 1)>>, T(K + 2)), OpN("Neg", <<T(K + 2)>>, T(K + 3))>>,      \* -(L ** 2.0)
+                <<"f", "f", "f">>, T(K + 3), L)
 ItemVec == Item(<<ConstN("cv", T(K + 1)), OpN("RSum", <<T(K + 1)>>, T(K + 2))>>, <<"v", "f">>, T(K + 2), L)
 ItemAttr == Item(<<AttrN(T(K + 1))>>, <<"f">>, T(K + 1), L)
 ItemInit(tok) ==
@@ -224,7 +227,7 @@ ItemIf(csrc, v) ==
                                             Blk(<<OpN("Add", <<L, "X">>, T(k + 2))>>, <<T(k + 2)>>))>>,
                  pty \o <<"f", "f", "f">>, T(k + 3), L)
        [] v = "two" ->
-            Item(pre \o <<IfN(c, <<T(k + 5), T(k + 6)>>,
+            Item2(pre \o <<IfN(c, <<T(k + 5), T(k + 6)>>,
                               Blk(<<OpN("Neg", <<L>>, T(k + 1)), OpN("Identity", <<"X">>, T(k + 2))>>, <<T(k + 1), T(k + 2)>>),
                               Blk(<<OpN("Identity", <<"X">>, T(k + 3)), ConstN("cm1", T(k + 4))>>, <<T(k + 3), T(k + 4)>>))>>,
                  pty \o <<"f", "f", "f", "f", "f", "f">>, T(k + 5), T(k + 6))
@@ -283,14 +286,14 @@ ItemLoop(form, bv) ==
       inits == IF two THEN <<init1, "X">> ELSE <<init1>>
       node == LoopN(trip, cond, inits, outs,
                     Body(it, cin, IF two THEN <<s1, s2>> ELSE <<s1>>, bs.nodes \o <<condN>>, cout, bs.souts))
-  IN Item(pre1 \o pre2 \o pre3 \o <<node>>,
-          prety \o <<"i", "b">> \o (IF two THEN <<"f", "f">> ELSE <<"f">>) \o bs.tys \o <<"b">> \o (IF two THEN <<"f", "f">> ELSE <<"f">>),
-          outs[1], IF two THEN outs[2] ELSE L)
+      alltys == prety \o <<"i", "b">> \o (IF two THEN <<"f", "f">> ELSE <<"f">>) \o bs.tys \o <<"b">> \o (IF two THEN <<"f", "f">> ELSE <<"f">>)
+  IN IF two THEN Item2(pre1 \o pre2 \o pre3 \o <<node>>, alltys, outs[1], outs[2])
+     ELSE Item(pre1 \o pre2 \o pre3 \o <<node>>, alltys, outs[1], L)
 
 Append1(it, cf, attr, pk) ==
   g' = [items |-> g.items \o it.nodes, inits |-> g.inits \o it.inits, n |-> g.n + Len(it.tys),
         ids |-> g.ids \o [i \in 1..Len(it.tys) |-> T(g.n + i)],
-        last |-> it.last, prev |-> it.prev, tys |-> g.tys \o it.tys, len |-> g.len + 1,
+        last |-> it.last, prev |-> it.prev, out2 |-> it.out2, tys |-> g.tys \o it.tys, len |-> g.len + 1,
         attr |-> (g.attr \/ attr), cf |-> g.cf + cf, pk |-> (IF g.len = 0 THEN pk ELSE g.pk)]
 \* quick tier: a second item only after a constant, an initializer or the attribute constant (pk = kind of item 1)
 MayAdd == Thorough \/ g.len = 0 \/ g.pk \in {"const", "init", "attr"}
@@ -306,8 +309,8 @@ GenAttr == CanGen /\ ~g.attr /\ g.inits = <<>> /\ Append1(ItemAttr, 0, TRUE, "at
 GenIf == CanGen /\ g.cf < MaxCF /\ (\E c \in {"B"} \cup CmpOps, v \in IfVariants : Append1(ItemIf(c, v), 1, FALSE, "cf")) /\ Keep
 GenLoop == CanGen /\ g.cf < MaxCF /\ (\E fb \in LoopMenu : Append1(ItemLoop(fb[1], fb[2]), 1, FALSE, "cf")) /\ Keep
 
-\* graph outputs: the last result, and the one before it when it is a node output too
-Outs == IF g.prev \in SeqSet(Inputs) \/ g.prev = g.last THEN <<g.last>> ELSE <<g.last, g.prev>>
+\* graph outputs: the result(s) of the last item
+Outs == IF g.out2 = "" THEN <<g.last>> ELSE <<g.last, g.out2>>
 AllIds == g.ids                  \* Inputs \o <<t1, ..., tn>>
 
 -----------------------------------------------------------------------------
@@ -428,7 +431,14 @@ RefInlined(id, dv) == Dropped(id, dv) /\ (IsInit(id) /\ Has("inline_init_key", d
 Skipped(id) == IsModel /\ cfg.skip /\ IsInit(id) /\ Tok[TokOf(id)].big
 
 TrVar(id, dv) == IF id \in DOMAIN ex.couts THEN Py(ex.couts[id], dv) ELSE Py(id, dv)
-Ref(id, dv) == IF RefInlined(id, dv) THEN Lit(TokOf(id)) ELSE Var(TrVar(id, dv))           \* _translate_onnx_var_ref
+\* _translate_onnx_var_ref: `var in self.constants`.  Constant nodes are entered under their ONNX name,
+\* initializers (deviation inline_init_key) under their *translated* name, so the look-up of any value whose
+\* ONNX name equals that translated name finds the initializer's text - and the initializer itself is found
+\* only when its name needs no clean-up.
+InitKeyHit(id, dv) == {w \in ex.initids : Dropped(w, dv) /\ Py(w, dv) = ex.nm[id]}
+Ref(id, dv) == IF Has("inline_init_key", dv) /\ ~IsConst(id) /\ InitKeyHit(id, dv) # {}
+               THEN Lit(TokOf(CHOOSE w \in InitKeyHit(id, dv) : TRUE))
+               ELSE IF RefInlined(id, dv) THEN Lit(TokOf(id)) ELSE Var(TrVar(id, dv))
 \* r-values that the code renders with _translate_onnx_var (no constant look-up): _emit_assign,
 \* range(n), return
 NonRef(id, dv) == IF Has("inline_const_nonref", dv) THEN Var(TrVar(id, dv)) ELSE Ref(id, dv)
@@ -606,7 +616,7 @@ OutcomeOf(e, exp) == IF e.err # "" THEN "raise"
 NoCfg == [kind |-> "none"]
 NoEx == [pc |-> 0]
 NoRes == [impl |-> "none"]
-Init == /\ g = [items |-> <<>>, inits |-> <<>>, ids |-> Inputs, n |-> 0, last |-> "X", prev |-> "X", tys |-> <<>>, len |-> 0, attr |-> FALSE, cf |-> 0, pk |-> ""]
+Init == /\ g = [items |-> <<>>, inits |-> <<>>, ids |-> Inputs, n |-> 0, last |-> "X", prev |-> "X", out2 |-> "", tys |-> <<>>, len |-> 0, attr |-> FALSE, cf |-> 0, pk |-> ""]
         /\ stage = "gen" /\ cfg = NoCfg /\ ex = NoEx /\ res = NoRes
 
 Bools == {FALSE, TRUE}
@@ -615,7 +625,7 @@ Kinds == (IF g.inits = <<>> THEN {"function"} ELSE {}) \cup (IF g.attr THEN {} E
 \* types; the namings with and without rename only; the declared-type forms with default options only.
 \* Quick tier, two-item graphs: after a constant only the inline_const half of the options.
 ConfigOK(c) == /\ \/ (c.naming = {} /\ c.xty = "scalar")
-                  \/ (c.naming # {} /\ ~c.useops /\ ~c.inline /\ ~c.skip /\ c.xty = "scalar")
+                  \/ (c.naming # {} /\ ~c.useops /\ (c.inline => g.inits # <<>>) /\ ~c.skip /\ c.xty = "scalar")
                   \/ (c.naming = {} /\ c.xty # "scalar" /\ ~c.rename /\ ~c.useops /\ ~c.inline /\ ~c.skip)
                /\ (g.len >= 2 => c.xty = "scalar")
                /\ (~Thorough /\ g.len >= 2 /\ g.pk = "const" /\ ~g.attr => c.inline /\ ~c.rename /\ ~c.skip)
@@ -629,7 +639,8 @@ Cfg(kind, rn, uo, ic, sk, nm, xty) == [kind |-> kind, rename |-> rn, useops |-> 
 \* the three slices of the configuration space, built directly (ConfigOK filters the tier-specific rest)
 Configs(kind) ==
   {Cfg(kind, rn, uo, ic, sk, {}, "scalar") : rn \in Bools, uo \in Bools, ic \in Bools, sk \in Bools}
-  \cup {Cfg(kind, rn, FALSE, FALSE, FALSE, nm, "scalar") : rn \in Bools, nm \in {n \in Namings : n # {} /\ WellFormedNaming(n)}}
+  \cup {Cfg(kind, rn, FALSE, ic, FALSE, nm, "scalar") : rn \in Bools, ic \in (IF g.inits # <<>> THEN Bools ELSE {FALSE}),
+                                                         nm \in {n \in Namings : n # {} /\ WellFormedNaming(n)}}
   \cup {Cfg(kind, FALSE, FALSE, FALSE, FALSE, {}, "anyrank")}
 Configure ==
   /\ stage = "gen" /\ g.len >= 1
